@@ -548,6 +548,155 @@ def prestart_probe(run, focus):
             run.case(cj, nontrivial=True)
 
 
+def live_callback_probe(run, focus, n=20):
+    """a live-spy callback that reacts to what it is shown by making the chart log more (it posts the next stimulus, scribbles a
+    note) while the step's lines are being handed over (oracle only): the hand-over goes on, every line of the step as it stood
+    is handed exactly once, nothing escapes next_rtc / start_at"""
+    rng = run.rng
+    saved_clock = mhsm.stdlib_datetime
+    mhsm.stdlib_datetime = FakeClock("fine")
+    try:
+        for _ in range(n):
+            c = charts.gen_chart(rng, nmax=6, nsig=2)
+            log = []
+            hsm = mhsm.HsmWithQueues()
+            fns = c.build(log, spied=True)
+            handed = []
+            react_at = rng.randint(0, 3)
+            what = rng.choice(["post_fifo", "post_lifo", "scribble", "re-register", "re-register"])
+            state = {"n": 0}
+            second = []         # lines handed to the sink the first one registers in its place (a log that rotates on a marker line)
+
+            def other_sink(line):
+                handed.append(line)
+                second.append(line)
+
+            def on_line(line):
+                handed.append(line)
+                state["n"] += 1
+                if state["n"] == react_at + 1:
+                    if what == "post_fifo":
+                        hsm.post_fifo(Event(signal="E9"))
+                    elif what == "post_lifo":
+                        hsm.post_lifo(Event(signal="E9"))
+                    elif what == "re-register":
+                        hsm.register_live_spy_callback(other_sink)
+                    else:
+                        hsm.scribble("NOTE-FROM-CALLBACK")
+            hsm.live_spy = True
+            hsm.register_live_spy_callback(on_line)
+            start = rng.randrange(1, c.n + 1)
+            script = [rng.randrange(2) for _ in range(rng.randint(1, 5))]
+            cj = {"live_callback_probe": True, "chart": c.to_json(), "start": start, "script": script, "reacts_at_line": react_at, "with": what}
+            bad = None
+            mine = lambda l: l in ("POST_FIFO:E9", "POST_LIFO:E9", "NOTE-FROM-CALLBACK")
+            try:
+                steps = ["start"] + script
+                for sg in steps:
+                    del handed[:]
+                    del second[:]
+                    state["n"] = 0
+                    if what == "re-register":
+                        hsm.register_live_spy_callback(on_line)
+                    if sg == "start":
+                        hsm.start_at(fns[start])
+                    else:
+                        hsm.post_fifo(Event(signal="E%d" % sg))
+                        hsm.next_rtc()
+                    want = [l for l in hsm.spy_rtc() if not mine(l)]
+                    got = [l for l in handed if not mine(l)]
+                    if got != want and bad is None:
+                        bad = ("C21/live-spy/callback-logs", "the live-spy callback calls %s on the chart when it is shown line %d of a step: it was "
+                               "handed %d of the step's %d lines (%s)" % (what, react_at + 1, len(got), len(want), "start_at" if sg == "start" else "E%d" % sg))
+                    if what == "re-register" and sg != "start" and bad is None and len(want) > react_at + 1 and second != want[react_at + 1:]:
+                        bad = ("C21/live-spy/callback-replaced-during-hand-over", "the live-spy callback registers another callback when it is shown line "
+                               "%d of a step of %d lines: the callback registered from then on was handed %s, the lines that followed are %s"
+                               % (react_at + 1, len(want), second, want[react_at + 1:]))
+                for _k in range(6):                 # the E9 events it posted are dispatched (and ignored) like any other
+                    if len(hsm.queue):
+                        hsm.next_rtc()
+            except (mhsm.HsmTopologyException, Diverged):
+                pass
+            except Exception as ex:  # noqa
+                bad = ("C21/live-spy/callback-logs", "the live-spy callback calls %s on the chart while a step's lines are handed over: %s: %s escaped"
+                       % (what, type(ex).__name__, ex))
+            run.count("live-spy callback that makes the chart log during the hand-over (%s)" % what)
+            run.traces_validated += 1
+            if bad and bad[0].startswith(focus):
+                run.violate(bad[0], bad[1], cj)
+            run.case(cj, nontrivial=True)
+    finally:
+        mhsm.stdlib_datetime = saved_clock
+
+
+def orthogonal_probe(run, focus, n=40):
+    """two instrumented charts, the second driven synchronously from the first one's handlers (the orthogonal-component pattern:
+    `chart.region.dispatch(e)` while handling e): the first chart's trace and spy are what they are when it runs alone - one trace
+    record per transition of ITS OWN, whatever the other chart did with the event it was handed (oracle only)"""
+    rng = run.rng
+    for _ in range(n):
+        a = charts.gen_chart(rng, nmax=7, nsig=3)
+        b = charts.gen_chart(rng, nmax=5, nsig=3)
+        # the inner chart reacts to few signals: most of what it is handed it ignores
+        for i in range(1, b.n + 1):
+            for sg in list(b.react[i]):
+                if rng.random() < 0.6:
+                    del b.react[i][sg]
+        trig = {}
+        for i in range(1, a.n + 1):
+            for kind in ("en", "ex", "in", "u0", "u1", "u2"):
+                if rng.random() < (0.5 if kind[0] == "u" else 0.2):
+                    trig[(i, kind)] = rng.randrange(b.nsig)
+        start, bstart = rng.randrange(1, a.n + 1), rng.randrange(1, b.n + 1)
+        script = [rng.randrange(3) for _ in range(rng.randint(2, 7))]
+        how = rng.choice(["dispatch", "post+next_rtc"])
+
+        def run_a(with_b):
+            bh = mhsm.HsmWithQueues()
+            bf = b.build([], spied=True)
+            berr = []
+            if with_b:
+                try:
+                    bh.start_at(bf[bstart])
+                except Exception as ex:  # noqa
+                    berr.append(type(ex).__name__)
+
+            def eff(chart, i, kind, e):
+                if with_b and (i, kind) in trig and not berr:
+                    try:
+                        if how == "dispatch":
+                            bh.dispatch(Event(signal="E%d" % trig[(i, kind)]))
+                        else:
+                            bh.post_fifo(Event(signal="E%d" % trig[(i, kind)]))
+                            bh.next_rtc()
+                    except Exception as ex:  # noqa
+                        berr.append(type(ex).__name__)
+            ah = mhsm.HsmWithQueues()
+            af = a.build([], spied=True, effects=eff)
+            err = None
+            try:
+                ah.start_at(af[start])
+                for sg in script:
+                    ah.post_fifo(Event(signal="E%d" % sg))
+                    ah.next_rtc()
+            except (mhsm.HsmTopologyException, Diverged) as ex:
+                err = type(ex).__name__
+            return [(t.start_state, t.signal, t.end_state) for t in ah.full.trace], list(ah.full.spy), err, ah.state_name
+        alone = run_a(False)
+        both = run_a(True)
+        cj = {"orthogonal_probe": True, "chart": a.to_json(), "inner": b.to_json(), "start": start, "inner_start": bstart, "script": script,
+              "triggers": [[i, k, sg] for (i, k), sg in sorted(trig.items())], "how": how}
+        run.count("a chart whose handlers drive a second instrumented chart synchronously (%s)" % how)
+        run.traces_validated += 1
+        if alone[2] is None and both != alone:
+            what = "trace" if both[0] != alone[0] else ("spy" if both[1] != alone[1] else "outcome")
+            run.violate("%s/other-chart-driven-from-handlers/%s" % (focus, what),
+                        "chart A's handlers hand events to a second chart object (%s): A's %s is %s; when A runs alone it is %s"
+                        % (how, what, (both[0] if what == "trace" else both[1][-8:] if what == "spy" else both[2:]),
+                           (alone[0] if what == "trace" else alone[1][-8:] if what == "spy" else alone[2:])), cj)
+        run.case(cj, nontrivial=bool(trig))
+
+
 def handler_clear_probe(run, focus, n=30):
     """an entry / exit / init / event handler that calls chart.clear_spy() (or clear_trace()) in the middle of a step (oracle only):
     the step still appends its one trace record iff it is a transition (start_at included), and the step's own log still lists
@@ -621,7 +770,7 @@ def handler_clear_probe(run, focus, n=30):
 
 def replay(case):
     cc = case.get("case", case)
-    if "handler_clear_probe" in cc or "prestart_probe" in cc:
+    if "handler_clear_probe" in cc or "prestart_probe" in cc or "live_callback_probe" in cc or "orthogonal_probe" in cc:
         print(cc)
         return 0
     if "meta_signal_probe" in cc:
